@@ -49,13 +49,16 @@ var (
 		"a", "\r", "\n", " ", "\\", "`", ">", "-", "\t")
 	// Inj: attribute-injection alphabet for C07.
 	Inj = sp("Inj", "attribute/markup injection",
-		"\"", "'", "<", ">", "&", "=", " ", "a", "![", "[", "](", ")", "`", "\\", ";", "#", "x")
+		"\"", "'", "<", ">", "&", "=", " ", "a", "![", "[", "](", ")", "`", "\\", ";", "#", "x", "](/u \"", "\"\t)")
+	// XEnt: character references in text, alt, title, destination, code, info string.
+	XEnt = sp("X-ent", "character references (valid, invalid, legacy-prefix names) in text and attributes",
+		"&", "#", "x", "1", "a", ";", "G", "amp", "not", "it", "copy", "![", "](/u)", "\"", "`", "\n", "[")
 	// Emph5: the five-symbol emphasis alphabet of C11.
 	Emph5 = sp("Emph5", "emphasis: * _ letter space punctuation", "*", "_", "a", " ", ".")
 )
 
 // All lists every declared space (for the start-up self test).
-var All = []Space{B, I, L, XHead, XRef, XLink, XCode, XHTML, XEmph, XList, XNul, XEol, Inj, Emph5}
+var All = []Space{B, I, L, XHead, XRef, XLink, XCode, XHTML, XEmph, XList, XNul, XEol, Inj, XEnt, Emph5}
 
 // ByName finds a space.
 func ByName(name string) (Space, bool) {
